@@ -7,6 +7,12 @@ import subprocess
 VERIF = os.path.dirname(os.path.dirname(os.path.abspath(__file__)))
 
 CHECKS = {
+    "C08": dict(
+        category="model_checking",
+        technique="TLA+ Layer-1 specifications of JSON (strict RFC 8259 parser + renderer) and of the XML 1.0 subset the archive uses (parser + renderer), both model-checked for self-consistency by TLC; real archive output is decoded and parsed by TLC (trace validation); spec-generated standard renderings are loaded by the real archives and compared with the abstract load semantics",
+        text="MC_JsonFormat / MC_XmlFormat check that every rendering style x 5 encodings x BOM of every corpus document parses back to the same data and that ill-formed texts are rejected. Save half: MC_SaveJson / MC_SaveXml enumerate typed values at numeric extremes, strings over the Unicode range (quotes, backslashes, control/markup characters, 2-4 byte UTF-8), containers, nested objects, base classes x {compact, pretty with padding char/count} x encodings; TLC decodes the bytes the real archive produced (memory and stream), parses them strictly and requires the same names, nesting, order and scalar lexical values (non-finite floats must be rejected by an exception in JSON). Load half: 9 JSON and 7 XML rendering styles (whitespace, escapes / character references, member order, quotes, empty-element forms, declaration, encoding, BOM) of the documents are loaded into typed targets and by request scripts; every observation must equal the one the abstract semantics prescribes.",
+        note="Trusted: TLC, harness, the TLA+ transcriptions of RFC 8259 and of the XML subset. Floating point lexical forms are table driven (dyadic values). XML attributes are not exercised; XML load results are prescribed only where the archive's data model is unambiguous. Known finding: carriage return not escaped by the XML writer.",
+        design_ref="DESIGN.md#c08"),
     "C10": dict(
         category="model_checking",
         technique="TLA+ refinement (TLC, exhaustive small scope): CBinaryStreamReader window machine M => ByteCursor A; TLC-generated call sequences replayed on the real class; recorded traces (results + private window state) validated against M and A by TLC",
@@ -20,13 +26,13 @@ CHECKS.update({
         category="model_checking",
         technique="TLA+ abstract load semantics (LoadScript) explored by TLC in path mode: every request history up to the bound x documents x encodings x paddings; every behaviour replayed through the public API on memory and four stream kinds at window 8 and 256; observations compared with the events the spec prescribes",
         text="TLC enumerates all object documents (up to 3 keys incl. typed keys, nested arrays/objects, a 20-byte string) x all request scripts up to the bound (present/absent/repeated keys, both target kinds, nested open/partial read/close, VisitKeys) and checks the property-level invariants (sentinel intact, failed request leaves target unchanged) on the abstract semantics; each state is exported with the prescribed observation and executed on the real MsgPack archive from memory and from stringstream / short-read / non-seekable streams with the reader window shrunk to 8 bytes (every alignment) and at the real 256 bytes with paddings across the boundary.",
-        note="Trusted: TLC, the scripted driver harness (public API only), spec/LoadScript.tla as the statement of the documented semantics. MessagePack archive only so far (JSON/XML/CSV legs are separate work); bounds: scripts <= 2 (quick) / 3 (thorough) requests, documents <= 3 members.",
+        note="Trusted: TLC, the scripted driver harness (public API only), spec/LoadScript.tla as the statement of the documented semantics. MessagePack, JSON and XML archives (CSV by-name reads are covered by C09); bounds: scripts <= 2 (quick) / 3 (thorough) requests, documents <= 3 members.",
         design_ref="DESIGN.md#c03"),
     "C05": dict(
         category="model_checking",
         technique="TLA+ abstract load semantics with Skip policies explored by TLC over well-typed document shapes with every subset (up to the bound) of values replaced by offending values; invariants SkipNeverThrows/SkipKeepsShape; all behaviours replayed on the real archive and compared",
         text="TLC explores 4 document shapes (array of scalars in typed containers, array of objects, byte containers as bin and as int array, scalars in an array) with up to 2/3 positions replaced by 8 kinds of offending values under both Skip policy combinations, checks on the abstract semantics that no error is raised and neighbours keep their events, and exports each state; the real MsgPack archive executes them from memory and streams at window 8 and 256 and must produce exactly the prescribed events (bool results, targets incl. prior values, sentinel).",
-        note="Trusted: TLC, harness, LoadScript.tla. MessagePack archive only so far. Required()-validator reporting of skipped fields is covered through the isLoaded flag each request logs.",
+        note="Trusted: TLC, harness, LoadScript.tla. MessagePack, JSON and XML archives. Required()-validator reporting of skipped fields is covered through the isLoaded flag each request logs.",
         design_ref="DESIGN.md#c05"),
     "C06": dict(
         category="model_checking",
